@@ -123,3 +123,34 @@ def ncpu() -> int:
         return len(os.sched_getaffinity(0))
     except AttributeError:
         return os.cpu_count() or 4
+
+
+class TimeLimit(Exception):
+    pass
+
+
+class time_limit:  # noqa: N801
+    """Context manager: raise TimeLimit inside the block after `seconds` (nests with the worker's case alarm)."""
+
+    def __init__(self, seconds: int) -> None:
+        self.seconds = max(1, int(seconds))
+
+    def __enter__(self):  # noqa: ANN204
+        import signal
+
+        def _h(_s, _f):  # noqa: ANN001, ANN202
+            raise TimeLimit
+
+        self._remaining = signal.alarm(0)
+        self._old = signal.signal(signal.SIGALRM, _h)
+        signal.alarm(self.seconds)
+        return self
+
+    def __exit__(self, *exc):  # noqa: ANN002, ANN204
+        import signal
+
+        signal.alarm(0)
+        signal.signal(signal.SIGALRM, self._old)
+        if self._remaining:
+            signal.alarm(max(1, self._remaining - self.seconds))
+        return False
